@@ -206,6 +206,22 @@ func (f *Frame) callByContract(ns *nodeState, x *ssa.Call, fc *FuncContract, fn 
 	out := make([]Val, res.Len())
 	post := &Scope{ex: ex, names: copyNames(names), st: ns.st, old: pre, bound: map[string]Term{}}
 	for i := 0; i < res.Len(); i++ {
+		if pt, isPtr := res.At(i).Type().Underlying().(*types.Pointer); isPtr {
+			if _, isStruct := pt.Elem().Underlying().(*types.Struct); isStruct {
+				// a pointer result is a fresh object owned by the caller, possibly nil
+				es := vc.SortOf(pt.Elem())
+				c := ex.newCell(fmt.Sprintf("%sres_%s_%d", f.prefix, sanitize(fn.Name()), i), es, pt.Elem())
+				init := vc.Declare(fmt.Sprintf("%sres_%s_%d", f.prefix, sanitize(fn.Name()), i), es)
+				ex.assumeRange(init, pt.Elem(), ns.reach)
+				ns.st[c] = init
+				out[i] = Val{IsPtr: true, P: &LV{Cell: c}, NilIf: vc.Declare(fmt.Sprintf("%sres_%s_%d_nil", f.prefix, sanitize(fn.Name()), i), SBool)}
+				post.names[fmt.Sprintf("result%d", i)] = out[i]
+				if n := res.At(i).Name(); n != "" && n != "_" {
+					post.names[n] = out[i]
+				}
+				continue
+			}
+		}
 		out[i] = f.havocVal(res.At(i).Type(), fmt.Sprintf("%sres_%s_%d", f.prefix, sanitize(fn.Name()), i), ns.reach)
 		post.names[fmt.Sprintf("result%d", i)] = out[i]
 		if n := res.At(i).Name(); n != "" && n != "_" {
@@ -215,13 +231,47 @@ func (f *Frame) callByContract(ns *nodeState, x *ssa.Call, fc *FuncContract, fn 
 	if res.Len() == 1 {
 		post.names["result"] = out[0]
 	}
+	var internal []*Clause // names that only exist inside the callee (witnesses, postlets over its locals)
+	internal = append(internal, fc.Witness...)
 	for _, lt := range fc.PostLets {
-		post.names[lt.Name] = Val{T: vc.Define(f.prefix+"plet_"+lt.Name, post.eval(lt.Expr))}
+		func() {
+			defer func() {
+				if r := recover(); r != nil {
+					if _, isSpec := r.(specError); !isSpec {
+						panic(r)
+					}
+					internal = append(internal, lt)
+				}
+			}()
+			post.names[lt.Name] = Val{T: vc.Define(f.prefix+"plet_"+lt.Name, post.eval(lt.Expr))}
+		}()
 	}
 	for _, e := range fc.Ensures {
+		if mentionsAny(e.Expr, internal) {
+			continue // stated in terms of a proof witness / callee local: callers use the other forms
+		}
 		vc.Assume(Implies(ns.reach, post.evalBool(e.Expr)), "postcondition of "+key)
 	}
 	return out
+}
+
+func mentionsAny(e *SExpr, ws []*Clause) bool {
+	if e == nil {
+		return false
+	}
+	if e.Op == "id" {
+		for _, w := range ws {
+			if w.Name == e.Name {
+				return true
+			}
+		}
+	}
+	for _, a := range e.Args {
+		if mentionsAny(a, ws) {
+			return true
+		}
+	}
+	return false
 }
 
 // lvalue resolves a contract expression to a location (for modifies clauses).
@@ -248,10 +298,8 @@ func (f *Frame) builtin(ns *nodeState, x *ssa.Call, name string, args []Val) []V
 			return []Val{{T: lenOf(t)}}
 		}
 		if t.Sort.Kind == KString {
-			vc.DeclareFun("str_len", []*Sort{SStr}, SInt)
-			r := App(SInt, "str_len", t)
-			vc.Assume(leT(IntLit64(0, SInt), r), "string length")
-			return []Val{{T: r}}
+			vc.assumeNote("len(string) is the number of characters of the modelled string (byte length not distinguished)")
+			return []Val{{T: App(SInt, "str.len", t)}}
 		}
 		ex.fail("len of %s", t.Sort)
 	case "append":
@@ -401,7 +449,6 @@ func init() {
 		// exact on powers of two; otherwise only monotone bounds are assumed
 		ex := f.ex
 		ex.needPrelude("arith")
-		ex.vc.DeclareFun("log2r", []*Sort{SReal}, SReal)
 		a := args[0].T
 		r := App(SReal, "log2r", a)
 		r = ex.vc.Define(f.prefix+"log2", r)
@@ -431,6 +478,16 @@ func init() {
 		ex.vc.Assume(And(leT(zero, hi), ltT(hi, two64), leT(zero, lo), ltT(lo, two64),
 			Eq(App(SInt, "+", App(SInt, "*", hi, two64), lo), App(SInt, "*", a, b))), "bits.Mul64: hi*2^64 + lo == x*y")
 		return []Val{{T: hi}, {T: lo}}
+	}
+	externals["math.Round"] = func(f *Frame, ns *nodeState, x *ssa.Call, fn *ssa.Function, args []Val) []Val {
+		f.ex.needPrelude("arith")
+		return []Val{{T: App(SReal, "roundHalfAway", args[0].T)}}
+	}
+	externals["(github.com/go-spatial/geom.Point).X"] = func(f *Frame, ns *nodeState, x *ssa.Call, fn *ssa.Function, args []Val) []Val {
+		return []Val{{T: FieldOf(f.ex.viewOf(ns.st, args[0]), 0)}}
+	}
+	externals["(github.com/go-spatial/geom.Point).Y"] = func(f *Frame, ns *nodeState, x *ssa.Call, fn *ssa.Function, args []Val) []Val {
+		return []Val{{T: FieldOf(f.ex.viewOf(ns.st, args[0]), 1)}}
 	}
 	externals["math.Abs"] = func(f *Frame, ns *nodeState, x *ssa.Call, fn *ssa.Function, args []Val) []Val {
 		a := args[0].T
